@@ -5,6 +5,8 @@
   callable, or of a keyword of the `minimize` call breaks one of these.
 -/
 import Optyx.Py.ScipyInputs
+import Optyx.Generated.ApiGlue
+import Optyx.Generated.LPGlue
 
 namespace Optyx.Props.Glue
 open Optyx Optyx.Py Optyx.Py.Api Optyx.Py.Glue Optyx.Generated NumAlg
@@ -73,5 +75,14 @@ theorem lpGlue_text :
       "if lp_data.sense == 'max': objective_value = -objective_value", "objective_value += lp_data.c0"] ∧
     lpGlueValues = ["for i, var_name in enumerate(lp_data.variables): values[var_name] = float(result.x[i])"] :=
   ⟨rfl, rfl, rfl⟩
+
+/-- `LinearProgramExtractor.extract_constraints`: one constraint `expr ⋈ 0` becomes the row of coefficients of
+    `expr` with right-hand side `−constant(expr)`; `==` rows go to (A_eq, b_eq), `<=` rows to (A_ub, b_ub) unchanged,
+    `>=` rows to (A_ub, b_ub) with row and right-hand side negated — the table `Py.constraintLoop` (C05) and
+    `LPE.feasible_iff_user` (C08) are readings of -/
+theorem lpRows_table :
+    lpRowCases = [⟨"==", "eq", false, false⟩, ⟨"<=", "ub", false, false⟩, ⟨">=", "ub", true, true⟩] ∧
+    lpRhsIsNegatedConstant = true := by
+  decide
 
 end Optyx.Props.Glue
